@@ -130,7 +130,7 @@ func runC15(r *mon.Run) {
 	})
 
 	// --- the suites ----------------------------------------------------------------------------------
-	r.Require("c15:layout:shared-buffer")
+	r.Require("c15:layout:shared-buffer", "c15:buffer-reuse")
 	r.Each("c15/suites", r.N(2500, 100000), func(w *mon.W, i int) {
 		rng := w.Rng
 		dl := []int{1, 2, 16, 43, 254, 255, 256, 257, 1000, 70000}[i%10]
@@ -210,6 +210,50 @@ func runC15(r *mon.Run) {
 			}
 			if p, err := h2c.Secp256k1_XMD_SHA256_SSWU_NU([]byte{}, msg); err == nil || p != nil {
 				w.Fail("c15/NU:empty-dst", "the NU suite accepted an empty DST")
+			}
+		}
+	})
+
+	// --- the caller rewrites its tag / message buffers IN PLACE and calls again (same slices,
+	// same lengths, new contents): the result must follow the new contents.  A cache that keeps
+	// the caller's slice as its key, or data derived from the first call, shows only here.
+	// Single goroutine: nothing else calls the suites between the steps.
+	r.Seq("c15/buffer-reuse", r.N(160, 6000), func(w *mon.W, i int) {
+		rng := w.Rng
+		dl := []int{256, 300, 1000, 2, 43, 255, 257, 70000}[i%8]
+		ml := []int{0, 3, 64, 130}[(i/8)%4]
+		dst, msg := rng.Bytes(dl), rng.Bytes(ml)
+		w.Class("c15:buffer-reuse")
+		w.Case(true, []byte("reuse"), dst, msg)
+		for rep := 0; rep < 3; rep++ {
+			if rep > 0 {
+				dst[dl-1] ^= byte(rep)
+				dst[rng.Intn(dl)] ^= 0x40
+				if ml > 0 {
+					msg[rng.Intn(ml)] ^= 0x10
+				}
+			}
+			want2, _, err := oracle.HashToCurveRO(msg, dst)
+			if err != nil {
+				w.Fail("c15/oracle", err.Error())
+				return
+			}
+			got2, err := h2c.Secp256k1_XMD_SHA256_SSWU_RO(dst, msg)
+			if err != nil {
+				w.Fail("c15/RO:reuse:err", err.Error())
+			} else if m := expectPoint(got2, want2); m != "" {
+				w.Fail(fmt.Sprintf("c15/RO:buffer-reuse/dstlen=%d", dl), fmt.Sprintf("RO suite, call #%d with the same %d-byte tag slice after the caller rewrote it in place: %s", rep+1, dl, m), "dst", append([]byte{}, dst...), "msg", append([]byte{}, msg...))
+				return
+			}
+			wantN2, _, _ := oracle.EncodeToCurveNU(msg, dst)
+			if gotN2, err := h2c.Secp256k1_XMD_SHA256_SSWU_NU(dst, msg); err != nil || expectPoint(gotN2, wantN2) != "" {
+				w.Fail(fmt.Sprintf("c15/NU:buffer-reuse/dstlen=%d", dl), fmt.Sprintf("NU suite, call #%d with the same %d-byte tag slice after the caller rewrote it in place, differs from RFC 9380", rep+1, dl), "dst", append([]byte{}, dst...), "msg", append([]byte{}, msg...))
+				return
+			}
+			// a fresh copy of the same contents must agree as well
+			if got3, err := h2c.Secp256k1_XMD_SHA256_SSWU_RO(append([]byte{}, dst...), append([]byte{}, msg...)); err != nil || expectPoint(got3, want2) != "" {
+				w.Fail("c15/RO:buffer-reuse:fresh-copy", "RO suite on a fresh copy of the rewritten tag differs from RFC 9380", "dst", append([]byte{}, dst...), "msg", append([]byte{}, msg...))
+				return
 			}
 		}
 	})
